@@ -125,6 +125,14 @@ def write_index_md(index):
             by = ", ".join("%s%s %s" % ("**" if pid == prop else "", pid, (v.get("rule") or "") + ("**" if pid == prop else "")) for pid, v in sorted(fired.items())) or "_none_"
             f.write("| %s | %s | %s | %s |\n" % (name, prop, summ.replace("|", "/").replace("\n", " ")[:260], by))
         f.write("\n## Behaviour-preserving refactorings (%d)\n\nEvery registered check stays silent on each of them (`seeded/benign/<area>_<k>/`); the thorough tier re-applies them.\n" % nb)
+        opened = sorted(glob.glob(os.path.join(OUT, "benign_open", "*", "meta.json")))
+        if opened:
+            f.write("\n## Behaviour-preserving refactorings on which a check still raises an alarm (%d)\n\nOpen false alarms, kept apart from the set above "
+                    "(`seeded/benign_open/<area>_<k>/`, not part of index.json); DESIGN.md 9.11 says why.\n\n| change | alarms | what was changed |\n|---|---|---|\n" % len(opened))
+            for mp in opened:
+                mm = json.load(open(mp))
+                f.write("| %s | %s | %s |\n" % (os.path.basename(os.path.dirname(mp)), ", ".join("%s %s" % kv for kv in sorted(mm.get("alarms", {}).items())).replace("|", "/"),
+                                               mm.get("summary", "").replace("|", "/").replace("\n", " ")[:260]))
     print("INDEX.md:", len(rows), "seeds,", nb, "benign")
 
 def main():
